@@ -57,7 +57,10 @@ class LinOrder:
 
 def set_field(np, s, field, value):
     if field == "config":
-        s.config = (str(value[0]), int(value[1]))
+        if (int(value[0]) + int(value[1])) % 2 == 0:
+            s.set_pos((str(value[0]), int(value[1])))      # System.set_pos: `self.config = (pos[0], pos[1])`
+        else:
+            s.config = (str(value[0]), int(value[1]))
     elif field == "order":
         # integer-valued order parameters: even values are stored as Python ints, odd ones as floats
         s.order = [int(x) if int(x) % 2 == 0 else float(x) for x in value]
@@ -97,9 +100,116 @@ def sys_fields(s):
             opt(s.ekin), opt(s.vpot), int(s.pos[0]), int(s.vel[0]), int(s.box[0]), int(s.temperature["t"]))
 
 
-def sys_token(s, oo):
+def sys_token(s, oo, ids=""):
     f = sys_fields(s)
-    return f"S {f[0]} {f[1]} o{oo} {lst(f[2])} {f[3]} {f[4]} {f[5]} {f[6]} {f[7]} {f[8]} {f[9]}"
+    return f"S {f[0]} {f[1]} o{oo} {lst(f[2])} {f[3]} {f[4]} {f[5]} {f[6]} {f[7]} {f[8]} {f[9]} {ids}"
+
+
+ARRS = ("pos", "vel", "box", "temp")
+
+
+def arr_obj(s, a):
+    return s.temperature if a == "temp" else getattr(s, a)
+
+
+def set_arr_item(s, a, x, how=0):
+    """in-place mutation of the container object held in field `a` (no re-assignment of the attribute)"""
+    if a == "temp":
+        if how % 2:
+            s.temperature.update({"t": float(x)})
+        else:
+            s.temperature["t"] = float(x)
+    else:
+        arr = getattr(s, a)
+        if how % 3 == 0:
+            arr[0] = float(x)
+        elif how % 3 == 1:
+            arr[...] = float(x)
+        else:
+            arr.fill(float(x))
+
+
+_SUBS = {}
+
+
+def path_class(Path, c):
+    """class number c: 0 = Path itself, c >= 1 = a (cached) direct subclass"""
+    if c == 0:
+        return Path
+    key = (id(Path), c)
+    if key not in _SUBS:
+        _SUBS[key] = type(f"SubPath{c}", (Path,), {})
+    return _SUBS[key]
+
+
+class StubGen:
+    """stands in for numpy's Generator: records every request, answers `low + u mod (high − low)`;
+    like numpy it raises ValueError when low >= high"""
+
+    def __init__(self, u):
+        self.u = int(u)
+        self.calls = []
+
+    def integers(self, low, high=None, *a, **kw):
+        self.calls.append((low, high))
+        if high is None:
+            low, high = 0, low
+        low, high = int(low), int(high)
+        if low >= high:
+            raise ValueError("low >= high")
+        return low + self.u % (high - low)
+
+
+class Capture:
+    """collects the WARNING records of infretis.classes.path while a program runs (which loop of paste_paths /
+    __iadd__ / update_energies gave up is only visible there)"""
+
+    def __init__(self):
+        import logging
+
+        class H(logging.Handler):
+            def __init__(hs):
+                super().__init__(level=logging.WARNING)
+                hs.msgs = []
+
+            def emit(hs, record):
+                try:
+                    hs.msgs.append(record.getMessage())
+                except Exception:  # noqa: BLE001
+                    hs.msgs.append("unformattable")
+        self.h = H()
+        self.logger = logging.getLogger("infretis.classes.path")
+
+    def __enter__(self):
+        import logging
+        self.saved = (self.logger.level, self.logger.propagate)
+        self.logger.setLevel(logging.WARNING)
+        self.logger.propagate = False
+        self.logger.addHandler(self.h)
+        return self
+
+    def __exit__(self, *a):
+        self.logger.removeHandler(self.h)
+        self.logger.setLevel(self.saved[0])
+        self.logger.propagate = self.saved[1]
+        return False
+
+    def take(self):
+        out, self.h.msgs = self.h.msgs, []
+        return out
+
+
+def warn_tokens(msgs):
+    import re
+    toks = []
+    for m in msgs:
+        for pat, t in ((r"Unequal length: Using (\S+) for", "uneq"), (r"Truncated while pasting backwards at: (\S+)", "tb"),
+                       (r"Truncated path at: (\S+)", "tf"), (r"Truncated path at (\S+) while adding", "ti")):
+            mm = re.search(pat, m)
+            if mm:
+                toks.append(f"{t}:{mm.group(1)}")
+                break
+    return toks
 
 
 PFIELDS = ("maxlen", "status", "generated", "pathnum", "weights", "weight", "torigin")
@@ -169,6 +279,24 @@ def op_tokens(op):
         return f"cpa {op[1]} {op[2]} {op[3]}"
     if k == "empty":
         return f"empty {op[1]} {opt(op[2])} {op[3]}"
+    if k == "newsub":
+        return f"newsub {opt(op[1])} {op[2]} {op[3]}"
+    if k == "pattr":
+        return f"pattr {op[1]} {op[2]}"
+    if k in ("eq", "ne"):
+        return f"{k} {op[1]} {op[2]}"
+    if k == "shoot":
+        return f"shoot {op[1]} {op[2]}"
+    if k == "upd":
+        return f"upd {op[1]} {lst(op[2])} {lst(op[3])}"
+    if k == "emptyd":
+        return f"emptyd {op[1]} {'omit' if op[2] == 'omit' else opt(op[2])} {'omit' if op[3] == 'omit' else op[3]}"
+    if k == "seta":
+        return f"seta {op[1]} {op[2]} {op[3]} {op[4]}"
+    if k == "adr":
+        return f"adr {op[1]}"
+    if k == "revvel":
+        return f"revvel {op[1]} {op[2]}"
     raise KeyError(k)
 
 
@@ -229,6 +357,15 @@ class Real:
         self.check = check
         self.branches = []
         self.classified = set()
+        self.cap = None       # Capture of the module's warnings (set by run_program)
+
+    def warns(self):
+        return warn_tokens(self.cap.take()) if self.cap is not None else []
+
+    def _same_class(self, src, new, what):
+        if type(new) is not type(src):
+            self.bad("C15:class-not-kept", f"{what} of a {type(src).__name__} returned a {type(new).__name__} "
+                     "(empty_path promises a path of the same class)")
 
     # ---- dump with canonical identities
     def state(self):
@@ -239,10 +376,13 @@ class Real:
                     refs[id(s)] = len(objs)
                     objs.append(s)
         oos = {}
+        ids = {a: {} for a in ARRS}
         for s in objs:
             oos.setdefault(id(s.order), len(oos))
+            for a in ARRS:
+                ids[a].setdefault(id(arr_obj(s, a)), len(ids[a]))
         toks = [path_token(p, refs) for p in self.paths]
-        toks += [sys_token(s, oos[id(s.order)]) for s in objs]
+        toks += [sys_token(s, oos[id(s.order)], " ".join(f"{a[0]}{ids[a][id(arr_obj(s, a))]}" for a in ARRS)) for s in objs]
         return " ; ".join(toks)
 
     def line(self):
@@ -462,9 +602,10 @@ class Real:
             n0 = len(p.phasepoints)
             old = list(p.phasepoints)
             snapq = self.snapshot(q)
+            self.warns()
             p += q
             assert P[op[1]] is p
-            self.log.append("iadd")
+            self.log.append(",".join(["iadd"] + self.warns()))
             if self.check:
                 room = len(q.phasepoints) if p.maxlen is None else max(0, min(len(q.phasepoints), p.maxlen - n0))
                 self.branches.append("iadd:full" if room == len(q.phasepoints) else "iadd:trunc")
@@ -486,6 +627,7 @@ class Real:
             snap = self.snapshot(P[op[1]])
             new = P[op[1]].copy()
             if self.check:
+                self._same_class(P[op[1]], new, "copy()")
                 self._check_copy(P[op[1]], new, snap)
             P.append(new)
             self.log.append("copy")
@@ -497,6 +639,7 @@ class Real:
             of = None if op[2] is None else LinOrder(*op[2])
             new = p.reverse(of, bool(op[3]))
             if self.check:
+                self._same_class(p, new, "reverse()")
                 self._check_reverse(p, op[2], bool(op[3]), new, before)
             P.append(new)
             self.log.append("rev")
@@ -505,8 +648,10 @@ class Real:
                 return self.log.append("skip")
             back, forw = P[op[1]], P[op[2]]
             snaps = (self.snapshot(back), self.snapshot(forw))
+            self.warns()
             try:
                 new = self.paste_paths(back, forw, overlap=bool(op[3]), maxlen=op[4])
+                wtoks = self.warns()
             except Exception as e:  # noqa: BLE001
                 self.log.append(err_kind(e))
                 self.branches.append("paste:" + err_kind(e))
@@ -515,6 +660,7 @@ class Real:
                     self.bad("C15:paste-raises", f"paste_paths raised {type(e).__name__}: {e}")
                 return None
             if self.check:
+                self._same_class(back, new, "paste_paths(back, …)")
                 if (self.snapshot(back), self.snapshot(forw)) != snaps:
                     self.bad("C15:paste-modifies-argument", "paste_paths changed one of the two segments it was given")
                 self._check_paste(back, forw, bool(op[3]), op[4], new)
@@ -527,7 +673,7 @@ class Real:
                 if self.state() != before:
                     self.bad("C15:paste-shares-list", "changing the frame list / attributes of a pasted path changed a segment")
             P.append(new)
-            self.log.append("paste")
+            self.log.append(",".join(["paste"] + wtoks))
         elif k == "set":
             if not (ok(op[1]) and 0 <= op[2] < len(P[op[1]].phasepoints)):
                 return self.log.append("skip")
@@ -600,8 +746,166 @@ class Real:
             if self.check and (e.length != 0 or e.maxlen != op[2] or e.time_origin != op[3]
                                or e.phasepoints is P[op[1]].phasepoints):
                 self.bad("C15:empty-path", "empty_path() is not a new empty path with the requested limit / time origin")
+            if self.check:
+                self._same_class(P[op[1]], e, "empty_path()")
             P.append(e)
             self.log.append("empty")
+        elif k == "newsub":
+            P.append(path_class(self.Path, op[3])(maxlen=op[1], time_origin=op[2]))
+            self.log.append("new")
+        elif k == "pattr":
+            if not ok(op[1]):
+                return self.log.append("skip")
+            setattr(P[op[1]], f"x{op[2]}", 1)
+            self.log.append("pattr")
+        elif k in ("eq", "ne"):
+            if not (ok(op[1]) and ok(op[2])):
+                return self.log.append("skip")
+            p, q = P[op[1]], P[op[2]]
+            snaps = (self.snapshot(p), self.snapshot(q))
+            try:
+                r = (p == q) if k == "eq" else (p != q)
+                self.log.append(str(bool(r)))
+            except Exception as e:  # noqa: BLE001
+                r = None
+                self.log.append(err_kind(e))
+                if all(len(s.order) > 0 for s in p.phasepoints + q.phasepoints):
+                    self.bad("C15:eq-raises", f"comparing two paths raised {type(e).__name__}: {e}")
+            if self.check:
+                self.branches.append(f"{k}:{self.log[-1]}")
+                if (self.snapshot(p), self.snapshot(q)) != snaps:
+                    self.bad("C15:eq-modifies", "comparing two paths changed one of them")
+                if r is not None:
+                    equal = bool(r) if k == "eq" else not bool(r)
+                    # equality must be sound: equal paths have the same class, frames (values, in order) and,
+                    # when non-empty, the same limit / time origin / status / generated / path number
+                    same = (type(p) is type(q) and self.state_of(p) == self.state_of(q)
+                            and (not p.phasepoints or (p.maxlen, p.time_origin, p.status, p.generated, p.path_number)
+                                 == (q.maxlen, q.time_origin, q.status, q.generated, q.path_number)))
+                    if equal and not same:
+                        self.bad("C15:eq-unsound", "two paths compare equal although their class / frames / "
+                                 "maxlen / time_origin / status / generated / path_number differ")
+                    if p is q and not equal:
+                        self.bad("C15:eq-not-reflexive", "a path does not compare equal to itself")
+                    try:
+                        other = (p != q) if k == "eq" else (p == q)
+                        if bool(other) == bool(r):
+                            self.bad("C15:eq-ne-inconsistent", "p == q and p != q give the same answer")
+                        if bool((q == p) if k == "eq" else (q != p)) != bool(r):
+                            self.bad("C15:eq-not-symmetric", "p == q and q == p differ")
+                    except Exception as e:  # noqa: BLE001
+                        self.bad("C15:eq-raises", f"comparing two paths raised {type(e).__name__}: {e}")
+        elif k == "shoot":
+            if not ok(op[1]):
+                return self.log.append("skip")
+            p = P[op[1]]
+            L = len(p.phasepoints)
+            gen = StubGen(op[2])
+            snap = self.snapshot(p)
+            try:
+                sp, idx = p.get_shooting_point(gen)
+                where = next((j for j, s in enumerate(p.phasepoints) if s is sp), -1)
+                res = f"{int(idx)}:{where}"
+            except Exception as e:  # noqa: BLE001
+                sp, idx, res = None, None, err_kind(e)
+            lo, hi = gen.calls[0] if len(gen.calls) == 1 else ("calls", len(gen.calls))
+            self.log.append(f"shoot:{lo}:{hi}:{res}")
+            if self.check:
+                self.branches.append("shoot:" + ("ok" if sp is not None else res))
+                if self.snapshot(p) != snap:
+                    self.bad("C15:shoot-modifies", "get_shooting_point changed the path")
+                if sp is not None:
+                    if not (1 <= int(idx) <= L - 2):
+                        self.bad("C15:shooting-point-endpoint", f"get_shooting_point returned index {int(idx)} on a path "
+                                 f"of length {L}: not an interior frame")
+                    elif p.phasepoints[int(idx)] is not sp:
+                        self.bad("C15:shooting-point-object", "get_shooting_point does not return the frame object at "
+                                 "the index it returns")
+                elif L >= 3 and all(len(s.order) > 0 for s in p.phasepoints):
+                    self.bad("C15:shooting-point-raises", f"get_shooting_point raised {res} on a path of length {L}")
+        elif k == "upd":
+            if not ok(op[1]):
+                return self.log.append("skip")
+            p = P[op[1]]
+            ek, vp = [float(x) for x in op[2]], [float(x) for x in op[3]]
+            if len(ek) % 2:     # both list and ndarray arguments
+                ek = np.array(ek)
+            if len(vp) % 3 == 1:
+                vp = np.array(vp)
+            before = [sys_fields(s) for s in p.phasepoints]
+            ids = [id(s) for s in p.phasepoints]
+            self.warns()
+            p.update_energies(ek, vp)
+            msgs = self.cap.take() if self.cap is not None else []
+            nv = sum(1 for m in msgs if "potential energies" in m)
+            nk = sum(1 for m in msgs if "kinetic energies" in m)
+            self.log.append(f"upd:{nv}:{nk}")
+            if self.check:
+                self.branches.append("upd:" + ("short" if (nv or nk) else "full"))
+                last = {}
+                for j, i_ in enumerate(ids):
+                    last[i_] = j
+                okk = [id(s) for s in p.phasepoints] == ids
+                for j, s in enumerate(p.phasepoints):
+                    jj = last[ids[j]]       # a frame object that occurs twice keeps what its last occurrence got
+                    w = list(before[j])
+                    w[4] = opt(ek[jj]) if jj < len(ek) else "-"
+                    w[5] = opt(vp[jj]) if jj < len(vp) else "-"
+                    okk = okk and tuple(w) == sys_fields(s)
+                if not okk:
+                    self.bad("C15:update-energies", "update_energies does not give frame i the energies ekin[i] / vpot[i] "
+                             "(None past the end) or changes something else")
+        elif k == "emptyd":
+            if not ok(op[1]):
+                return self.log.append("skip")
+            kw = {}
+            if op[2] != "omit":
+                kw["maxlen"] = op[2]
+            if op[3] != "omit":
+                kw["time_origin"] = op[3]
+            src = P[op[1]]
+            snap = self.snapshot(src)
+            e = src.empty_path(**kw)
+            if self.check:
+                self._same_class(src, e, "empty_path()")
+                if (e.length != 0 or e.phasepoints is src.phasepoints or e.maxlen != kw.get("maxlen", self.pathmod.DEFAULT_MAXLEN)
+                        or e.time_origin != kw.get("time_origin", 0) or e.status != "" or e.generated is not None
+                        or e.path_number is not None or e.weights is not None or e.weight != 0.0
+                        or self.snapshot(src) != snap):
+                    self.bad("C15:empty-path", "empty_path() is not a new empty path with the requested (or default) limit / "
+                             "time origin and fresh attributes")
+            P.append(e)
+            self.log.append("empty")
+        elif k == "seta":
+            if not (ok(op[1]) and 0 <= op[2] < len(P[op[1]].phasepoints)):
+                return self.log.append("skip")
+            set_arr_item(P[op[1]].phasepoints[op[2]], op[3], op[4], how=op[4] + op[2])
+            self.log.append("seta")
+        elif k == "adr":
+            if not ok(op[1]):
+                return self.log.append("skip")
+            p = P[op[1]]
+            a = p.adress
+            self.log.append(",".join(["adr"] + [str(x) for x in sorted(int(x) for x in a)]))
+            if self.check and set(a) != {s.config[0] for s in p.phasepoints}:
+                self.bad("C15:adress", "Path.adress is not the set of config[0] of the frames")
+        elif k == "revvel":
+            if not (ok(op[1]) and 0 <= op[2] < len(P[op[1]].phasepoints)):
+                return self.log.append("skip")
+            p = P[op[1]]
+            s_ = p.phasepoints[op[2]]
+            f0 = sys_fields(s_)
+            before = self.state()
+            p.reverse_velocities(s_)
+            self.log.append("revvel")
+            if self.check:
+                f1 = sys_fields(s_)
+                if f1[3] != 1 - f0[3] or f1[:3] + f1[4:] != f0[:3] + f0[4:]:
+                    self.bad("C15:reverse-velocities", "reverse_velocities does not flip exactly vel_rev of the given System")
+                s_.vel_rev = not s_.vel_rev
+                if self.state() != before:
+                    self.bad("C15:reverse-velocities", "reverse_velocities changed another object")
+                s_.vel_rev = not s_.vel_rev
         elif k == "del":
             if not (ok(op[1]) and 0 <= op[2] < len(P[op[1]].phasepoints)):
                 return self.log.append("skip")
@@ -614,12 +918,15 @@ class Real:
 
 def run_program(mods, prog, check=True):
     m = Real(mods, check)
-    for op in prog:
-        try:
-            m.step(tuple(op))
-        except Exception as e:  # noqa: BLE001  — never let changed code crash the harness: report the input
-            m.log.append("raised:" + type(e).__name__)
-            m.bad("C15:op-raises", f"{op[0]} raised {type(e).__name__}: {e}")
+    with Capture() as cap:
+        m.cap = cap
+        for op in prog:
+            try:
+                m.step(tuple(op))
+            except Exception as e:  # noqa: BLE001  — never let changed code crash the harness: report the input
+                m.log.append("raised:" + type(e).__name__)
+                m.bad("C15:op-raises", f"{op[0]} raised {type(e).__name__}: {e}")
+        m.cap = None
     if check:
         try:
             m.fresh_objects_are_pristine()
@@ -788,6 +1095,150 @@ def systematic_histories(maxlen):
                     yield prog
 
 
+def gen_alias(rng):
+    """paths that SHARE frame objects (paste / append / extender) or hold shallow copies (copy / += / reverse /
+    System.copy) mixed with in-place mutation of the numpy arrays / temperature dict / order list, re-assignment,
+    update_energies and reverse_velocities: who sees what"""
+    prog = [("new", rng.choice((None, 100, 6)), rng.randint(-2, 2)), ("new", rng.choice((None, 100)), 0)]
+    na, nb = rng.randint(1, 4), rng.randint(0, 3)
+    for k in range(na):
+        prog.append(("sys", 0, rand_vals(rng)))
+    for k in range(nb):
+        prog.append(("sys", 1, rand_vals(rng)))
+    lens = [na, nb]
+    for _ in range(rng.randint(1, 3)):
+        how = rng.choice(("paste", "paste", "copy", "rev", "iadd", "app", "cpa", "ext"))
+        i, j = rng.randrange(len(lens)), rng.randrange(len(lens))
+        if how == "paste":
+            ov = rng.random() < 0.5
+            prog.append(("paste", i, j, ov, 100))
+            lens.append(lens[i] + lens[j] - (1 if ov and lens[j] else 0))
+        elif how == "copy":
+            prog.append(("copy", i))
+            lens.append(lens[i])
+        elif how == "rev":
+            prog.append(("rev", i, None if rng.random() < 0.5 else (1, 1, 0, True), rng.random() < 0.7))
+            lens.append(lens[i])
+        elif how == "iadd" and i != j:
+            prog.append(("iadd", i, j))
+            lens[i] += lens[j]
+        elif how in ("app", "cpa") and lens[j]:
+            prog.append((how, i, j, rng.randrange(lens[j])))
+            lens[i] += 1
+        elif how == "ext":
+            prog.append(("ext", i, j))
+            lens[i] = max(lens[i] - 1, 0) + lens[j]
+    for _ in range(rng.randint(2, 7)):
+        i = rng.randrange(len(lens))
+        if not lens[i]:
+            continue
+        k = rng.randrange(lens[i])
+        what = rng.choice(("seta", "seta", "seta", "seti", "set", "set", "upd", "revvel"))
+        if what == "seta":
+            prog.append(("seta", i, k, rng.choice(ARRS), rng.randint(10, 19)))
+        elif what == "seti":
+            prog.append(("seti", i, k, rng.randint(5, 9)))
+        elif what == "set":
+            f = rng.choice(("pos", "vel", "box", "temp", "order", "velrev"))
+            prog.append(("set", i, k, f, [rng.randint(-1, 4)] if f == "order" else (rng.random() < 0.5) if f == "velrev"
+                         else rng.randint(-5, 5)))
+        elif what == "upd":
+            prog.append(("upd", i, [rng.randint(0, 9) for _ in range(lens[i] - rng.choice((0, 0, 1)))],
+                         [rng.randint(-9, 0) for _ in range(lens[i] + rng.choice((0, 0, -1, 1)))]))
+        else:
+            prog.append(("revvel", i, k))
+    return prog
+
+
+def gen_eq(rng):
+    """two path objects holding the SAME frame objects (append one by one / paste with an empty backward segment),
+    a copy, a subclass instance; one attribute / frame / order value changed; == and != in both directions"""
+    cls0 = rng.choice((0, 0, 0, 1))
+    ml = rng.choice((None, 100, 100, 7))
+    t0 = rng.randint(-2, 2)
+    prog = [("newsub", ml, t0, cls0) if cls0 else ("new", ml, t0)]
+    n = rng.randint(0, 4)
+    for k in range(n):
+        v = plain_vals(rng.randint(-1, 4), k)
+        if rng.random() < 0.05:
+            v["order"] = []
+        prog.append(("sys", 0, v))
+    twin = rng.choice(("app", "app", "paste", "copy", "self"))
+    if twin == "app":
+        c1 = rng.choice((cls0, cls0, cls0, 1 - min(cls0, 1), 2))
+        prog.append(("newsub", ml, t0, c1) if c1 else ("new", ml, t0))
+        prog += [("app", 1, 0, k) for k in range(n)]
+    elif twin == "paste":
+        prog += [("emptyd", 0, ml, t0 + 0), ("paste", 1, 0, False, ml), ("pset", 2, "torigin", t0)]
+    elif twin == "copy":
+        prog.append(("copy", 0))
+    j = {"app": 1, "paste": 2, "copy": 1, "self": 0}[twin]
+    for _ in range(rng.choice((0, 0, 1, 1, 2))):
+        i = rng.choice((0, j))
+        what = rng.choice(("pset", "pset", "pset", "set", "repl", "pattr", "del", "seti"))
+        if what == "pset":
+            f = rng.choice(PFIELDS)
+            v = rng.choice(MAXLENS) if f == "maxlen" else rng.choice((None, 0, 1, 2)) if f in ("generated", "pathnum", "weights") \
+                else rng.randint(0, 3)
+            prog.append(("pset", i, f, v))
+        elif what == "set" and n:
+            prog.append(("set", i, rng.randrange(n), "order", [rng.randint(-1, 4)] if rng.random() < 0.9 else []))
+        elif what == "seti" and n:
+            prog.append(("seti", i, rng.randrange(n), rng.randint(5, 9)))
+        elif what == "repl" and n:
+            prog += [("cpa", i, 0, rng.randrange(n)), ("del", i, rng.randrange(n))]
+        elif what == "pattr":
+            prog.append(("pattr", i, rng.randint(0, 1)))
+            if rng.random() < 0.5:
+                prog.append(("pattr", rng.choice((0, j)), rng.randint(0, 1)))
+        elif what == "del" and n:
+            prog.append(("del", i, rng.randrange(n)))
+    prog += [("eq", 0, j), ("ne", 0, j), ("eq", j, 0), ("eq", 0, 0), ("ne", j, j)]
+    return prog
+
+
+def systematic_shoot(nmax):
+    """every path length 0..nmax × every answer of the generator (u = 0..nmax); a frame with an empty order list
+    at the chosen index; a frame object occurring twice"""
+    for L in range(0, nmax + 1):
+        for u in range(0, nmax + 1):
+            base = [("new", None, 0)] + [("sys", 0, plain_vals(k % 3, k)) for k in range(L)]
+            yield base + [("shoot", 0, u)]
+            if L >= 3:
+                k = 1 + u % (L - 2)
+                yield base + [("set", 0, k, "order", []), ("shoot", 0, u), ("shoot", 0, u + 1)]
+                yield base + [("repl", 0, k, 0, 0), ("shoot", 0, u), ("new", 3, 0), ("shoot", 1, u)]
+
+
+def systematic_upd(nmax):
+    """update_energies: every (path length, len(ekin), len(vpot)) up to nmax(+1); also with a frame object that
+    occurs twice in the path and with frames shared with a second path"""
+    for L in range(0, nmax + 1):
+        for ne_ in range(0, nmax + 2):
+            for nv in range(0, nmax + 2):
+                base = [("new", None, 0)] + [("sys", 0, dict(plain_vals(k, k), ekin=k % 2 or None, vpot=-(k % 3) or None))
+                                            for k in range(L)]
+                ek, vp = [5 + k for k in range(ne_)], [-5 - k for k in range(nv)]
+                yield base + [("upd", 0, ek, vp)]
+                if L >= 2 and (ne_ + nv) % 3 == 0:
+                    yield base + [("app", 0, 0, 0), ("upd", 0, ek, vp), ("copy", 0), ("upd", 1, vp, ek)]
+                    yield base + [("new", None, 0), ("paste", 0, 1, False, None), ("upd", 2, ek, vp), ("upd", 0, vp, ek)]
+
+
+def log_key(tok):
+    if tok.startswith("min="):
+        return "log:classify"
+    if tok.startswith("shoot:"):
+        return "log:shoot:" + ("ok" if "err" not in tok else tok.split(":", 3)[3])
+    if tok.startswith("upd:"):
+        return "log:upd:" + ("full" if tok == "upd:0:0" else "short")
+    if tok.startswith("adr"):
+        return "log:adr"
+    if tok.startswith("paste") or tok.startswith("iadd"):
+        return "log:" + ",".join(x.split(":")[0] for x in tok.split(","))
+    return "log:" + tok
+
+
 def gen_program(rng, nops):
     """prelude: 1–3 paths with 0–5 frames; then `nops` random ops. Keeps a shadow of path lengths only
     to choose mostly-valid indices (a few ops are deliberately ill-formed → 'skip')."""
@@ -817,7 +1268,8 @@ def gen_program(rng, nops):
         if rng.random() < 0.03:
             i = n + rng.randint(0, 2)   # ill-formed
         kind = rng.choice(("paste", "paste", "paste", "rev", "rev", "copy", "copy", "iadd", "iadd", "app", "sys",
-                           "set", "set", "seti", "pset", "new", "classify", "classify", "classify", "repl", "ext", "del", "cpa", "empty"))
+                           "set", "set", "seti", "pset", "new", "classify", "classify", "classify", "repl", "ext", "del", "cpa", "empty",
+                           "eq", "ne", "shoot", "upd", "emptyd", "seta", "seta", "adr", "revvel", "newsub", "pattr"))
         if kind == "new":
             ml = rng.choice(MAXLENS)
             prog.append(("new", ml, rng.randint(-5, 5)))
@@ -890,6 +1342,35 @@ def gen_program(rng, nops):
             k = rng.randrange(lens[i]) if i < n and lens[i] and rng.random() < 0.95 else rng.randint(0, 6)
             l = rng.randrange(lens[j]) if lens[j] and rng.random() < 0.95 else rng.randint(0, 6)
             prog.append(("repl", i, k, j, l))
+        elif kind in ("eq", "ne"):
+            prog.append((kind, i, j if rng.random() < 0.8 else i))
+        elif kind == "shoot":
+            prog.append(("shoot", i, rng.randint(0, 9)))
+        elif kind == "upd":
+            li = lens[i] if i < n else 2
+            prog.append(("upd", i, [rng.randint(0, 9) for _ in range(max(0, li + rng.choice((0, 0, 0, -1, -2, 1))))],
+                         [rng.randint(-9, 0) for _ in range(max(0, li + rng.choice((0, 0, 0, -1, -3, 2))))]))
+        elif kind == "emptyd":
+            ml = rng.choice(("omit", "omit") + MAXLENS)
+            prog.append(("emptyd", i, ml, rng.choice(("omit", "omit", -2, 0, 3))))
+            if i < n:
+                lens.append(0)
+                mls.append(100000 if ml == "omit" else ml)
+        elif kind == "seta":
+            k = rng.randrange(lens[i]) if i < n and lens[i] and rng.random() < 0.97 else rng.randint(0, 6)
+            prog.append(("seta", i, k, rng.choice(ARRS), rng.randint(10, 19)))
+        elif kind == "adr":
+            prog.append(("adr", i))
+        elif kind == "revvel":
+            k = rng.randrange(lens[i]) if i < n and lens[i] and rng.random() < 0.97 else rng.randint(0, 6)
+            prog.append(("revvel", i, k))
+        elif kind == "newsub":
+            ml = rng.choice(MAXLENS)
+            prog.append(("newsub", ml, rng.randint(-5, 5), rng.randint(1, 2)))
+            lens.append(0)
+            mls.append(ml)
+        elif kind == "pattr":
+            prog.append(("pattr", i, rng.randint(0, 2)))
         elif kind == "ext":
             prog.append(("ext", i, j))
             if i < n:
@@ -1011,6 +1492,10 @@ def run(ctx):
     progs += [gen_history(rng) for _ in range(2500 if ctx.quick else 40000)]
     progs += list(systematic_histories(3 if ctx.quick else 4))
     progs += list(systematic_pastes(3 if ctx.quick else 5))
+    progs += [gen_alias(rng) for _ in range(1500 if ctx.quick else 30000)]
+    progs += [gen_eq(rng) for _ in range(1500 if ctx.quick else 30000)]
+    progs += list(systematic_shoot(6 if ctx.quick else 9))
+    progs += list(systematic_upd(3 if ctx.quick else 5))
     lines, code_out = [], []
     shrunk = set()
     for prog in progs:
@@ -1021,8 +1506,8 @@ def run(ctx):
         for b in m.branches:
             ctx.hit("op:" + b)
         for tok in m.log:
-            ctx.hit("log:classify" if tok.startswith("min=") else "log:" + tok)
-        if any(b.split(":")[0] in ("paste", "rev", "copy", "iadd", "classify") for b in m.branches):
+            ctx.hit(log_key(tok))
+        if any(b.split(":")[0] in ("paste", "rev", "copy", "iadd", "classify", "eq", "ne", "shoot", "upd") for b in m.branches):
             ctx.distinct(lines[-1])
         for sig, what in m.fails:
             small = prog
